@@ -168,3 +168,30 @@ package invoices
 //@   site call cancelInvoice: assert retn(callback, 0).UpdateType == CancelInvoiceUpdate && arg(0) == invoice && arg(3) == retn(callback, 0).State
 //@   site call callback: assert arg(0) == retn(CopyInvoice, 0) && retn(CopyInvoice, 1) == nil
 //@   site call Finalize: assert retn(callback, 1) == nil && retn(callback, 0) != nil
+//@
+//@ func getUpdatedInvoiceAmpState
+//@   props C15
+//@   let had = old(has(invoice.AMPState, setID))
+//@   let prevAmt = old(invoice.AMPState[setID].AmtPaid)
+//@   ensures !had && state != HtlcStateAccepted ==> result1 != nil
+//@   ensures result1 == nil && state == HtlcStateAccepted ==> result0.AmtPaid == wrap(ite(had, prevAmt, 0) + amt, 64) &&
+//@           result0.State == ite(had, old(invoice.AMPState[setID].State), HtlcStateAccepted)
+//@   ensures result1 == nil && state == HtlcStateCanceled ==> result0.AmtPaid == wrap(prevAmt - amt, 64) && result0.State == HtlcStateCanceled
+//@   ensures result1 == nil && state == HtlcStateSettled ==> result0.AmtPaid == prevAmt && result0.State == HtlcStateSettled
+//@
+//@ func acceptHtlcsAmp
+//@   props C15
+//@   site call getUpdatedInvoiceAmpState: assert arg(0) == invoice && arg(3) == HtlcStateAccepted && arg(4) == htlc.Amt
+//@   site call UpdateAmpState: assert retn(getUpdatedInvoiceAmpState, 1) == nil
+//@
+//@ func cancelHtlcsAmp
+//@   props C15
+//@   site call getUpdatedInvoiceAmpState: assert arg(0) == invoice && arg(3) == HtlcStateCanceled && arg(4) == htlc.Amt
+//@   site call UpdateAmpState: assert retn(getUpdatedInvoiceAmpState, 1) == nil
+//@   site call updateInvoiceAmtPaid: assert ret(UpdateAmpState) == nil && invoice.AmtPaid != 0 && arg(0) == invoice &&
+//@        arg(1) == wrap(invoice.AmtPaid - htlc.Amt, 64)
+//@
+//@ func settleHtlcsAmp
+//@   props C15
+//@   site call getUpdatedInvoiceAmpState: assert arg(0) == invoice && arg(3) == HtlcStateSettled && arg(4) == 0
+//@   site call UpdateAmpState: assert retn(getUpdatedInvoiceAmpState, 1) == nil
